@@ -111,7 +111,11 @@ fn long(s: &str) -> String {
 
 /// Source location relative to the crate it is in.
 fn norm_loc(loc: &str) -> String {
-    let loc = loc.strip_prefix("/repo/").unwrap_or(loc);
+    // (/repo, or a private copy of it somewhere else)
+    let loc = match loc.find("/repo/src/") {
+        Some(pos) => &loc[pos + "/repo/".len()..],
+        None => loc,
+    };
     if let Some(rest) = loc.strip_prefix("/rustc/") {
         // /rustc/<hash>/library/alloc/src/...
         let rest = rest.split_once("/library/").map(|x| x.1).unwrap_or(rest);
@@ -323,6 +327,28 @@ impl Direct {
             Outcome::Ok(obs) => obs,
             Outcome::Panic(msg) | Outcome::Crash(msg) => Obs::panic(&msg),
         }
+    }
+
+    /// Executes the requests that set the scene; a panic among them is
+    /// the outcome of the instance.
+    pub fn prelude(&self, v: &Vector, input: &Input) -> Option<Obs> {
+        for step in &input.prelude {
+            let res = guarded(|| {
+                if step.kind == "flush" {
+                    let _ = self.world.env.krill.repo_manager()
+                        .update_rrdp_if_needed();
+                }
+                else {
+                    let mut one = input.clone();
+                    one.body = step.body.clone();
+                    let _ = self.exec_inner(v, &one);
+                }
+            });
+            if let Outcome::Panic(msg) | Outcome::Crash(msg) = res {
+                return Some(Obs::panic(&msg))
+            }
+        }
+        None
     }
 
     fn exec_inner(&self, v: &Vector, input: &Input) -> Obs {
@@ -923,6 +949,33 @@ impl Http {
             "/api/v1/pubd/publishers/{}", fworld::PUBLISHER
         )).0 == 200;
         Ctx { repo, ca, child, publ }
+    }
+
+    pub fn prelude(&mut self, v: &Vector, input: &Input) -> Option<Obs> {
+        for step in &input.prelude {
+            let mut one = input.clone();
+            one.prelude = Vec::new();
+            if step.kind == "flush" {
+                // the one API call that applies what is staged right away
+                // (src/server/pubd/manager.rs delete_matching_files); the
+                // URI matches nothing
+                one.method = "POST".into();
+                one.path = "/api/v1/pubd/delete".into();
+                one.ctype = "application/json".into();
+                one.body = format!(
+                    "{{\"base_uri\":\"{}zz-flush/\"}}",
+                    crate::aworld::RSYNC_BASE
+                ).into_bytes();
+            }
+            else {
+                one.body = step.body.clone();
+            }
+            let obs = self.exec(v, &one);
+            if matches!(obs.out.as_str(), "panic" | "exit") {
+                return Some(obs)
+            }
+        }
+        None
     }
 
     pub fn exec(&mut self, v: &Vector, input: &Input) -> Obs {
